@@ -203,8 +203,17 @@ def swallowed_failures(ctx, info):
         if not tested:
             returned = False
             for bb, idx, e, node in ea.ret_sites():
-                if any(x.k == "call" and x.site == cb and x.a[0].full == t.callee.full for x in e.walk()):
-                    returned = True  # handed back to the caller (possibly through map/map_err/and_then)
+                # handed back to the caller as a Result: the call itself, possibly under map / map_err / and_then
+                # (`insert(..).unwrap_or_default()`, `.ok()`, `.unwrap_or(..)` turn its failure into a value instead)
+                cur = strip(e)
+                for _ in range(8):
+                    if cur.k == "call" and cur.site == cb and cur.a[0].full == t.callee.full:
+                        returned = True
+                        break
+                    if cur.k == "call" and cur.a[0].name in ("map", "map_err", "and_then", "inspect", "inspect_err", "or_else") and (cur.a[0].fn or "").startswith("std::result::Result") and cur.a[1]:
+                        cur = strip(cur.a[1][0])
+                        continue
+                    break
             if not returned and ok_blocks & (set(cfg.reach(cb)) | {cb}):
                 out.append((tgt, t.sp))
                 continue
